@@ -121,6 +121,8 @@ def expat_parse(data):
         p.Parse(data, True)
     except xml.parsers.expat.ExpatError as e:
         return ('err', str(e))
+    except (LookupError, ValueError) as e:
+        return ('err', 'outside the modelled sub-language (encoding declaration): %s' % e)
     if seen['dtd']: return ('err', 'outside the modelled sub-language (DTD/PI/comment)')
     return ('ok', stack[0][3][0])
 
